@@ -3,7 +3,7 @@
    OCaml's own; N, positive, nat, ascii, string, comparison stay Coq datatypes. *)
 Require Extraction.
 Require ExtrOcamlBasic.
-From RC Require Import Base.Res Base.Wire Model.Enums Gen.EnumTables Gen.Merge Model.Open Model.Negotiate Gen.CmpChain Model.Select Model.Nlri Model.NlriOrd Model.AsPath Gen.AttrRules Model.Attr Model.Update.
+From RC Require Import Base.Res Base.Wire Model.Enums Gen.EnumTables Gen.Merge Model.Open Model.Negotiate Gen.CmpChain Model.Select Model.Nlri Model.NlriOrd Model.AsPath Gen.AttrRules Model.Attr Model.Update Gen.BuilderConsts Model.Builder.
 Extraction Language OCaml.
 Set Extraction KeepSingleton.
 Extraction "../ocaml/model.ml"
@@ -26,4 +26,8 @@ Extraction "../ocaml/model.ml"
   Update.a_communities Update.a_conv_withdrawals Update.a_conv_announcements Update.a_mp_withdrawals Update.a_mp_announcements
   Update.a_withdrawals_vec Update.a_announcements_vec Update.a_withdrawals Update.a_announcements Update.a_is_eor
   Update.a_mp_next_hop Update.a_conventional_next_hop Update.a_pamap Update.pamap_bytes_len Update.range_len Update.fam_of
+  Builder.take_message Builder.into_message Builder.into_messages Builder.pdu_iter Builder.add_announcement
+  Builder.add_withdrawal Builder.set_nexthop Builder.empty_builder Builder.bsize Builder.from_update_message
+  Builder.add_announcements_from_pdu Builder.add_withdrawals_from_pdu Builder.owned_all Builder.compose_all
+  Builder.pamap_compose Builder.fam_code Update.attrs_walk Update.pamap_insert
   EnumTables.all_enum_widths EnumTables.all_enum_names.
